@@ -36,7 +36,9 @@ PID = "C04"
 LEVEL = "exploration"
 ENGINE = "E1 exhaustive product: schemes x shapes x matrix families x block lengths + E3 BFS over object-reuse histories"
 RULE = ("E1: Blast/SVDMimo/GMDMimo on every shape 1<=Nt<=Nr<=4 (all families) and 1<=Nt<=Nr<=6 (thorough 8; "
-        "generic s<24/60 and nearly dependent members), MRC Nr 1..4 (1-D and (Nr,1) channel), "
+        "generic s<24/60 and nearly dependent members; generic / nearly dependent members of every shape also "
+        "scaled by 1e-12,1e-9,1e-6,1e6,1e9 with noise variances scaled alike; nearly tied singular value "
+        "profiles with relative gaps 1e-6 / 1e-9 at scales 1,1e-9,1e6), MRC Nr 1..4 (1-D and (Nr,1) channel), "
         "MRT Nt 1..4 (1-D and (1,Nt)), Alamouti Nr 1..4 (and 1-D channel of 2 taps); channels: all "
         "{1,j,-1}-entry matrices with <=6 (thorough 9) entries, all {0,+-1,+-j} matrices with <=4 (thorough 6) "
         "entries, generic family G_s s<30 (thorough 100), nearly dependent members (kappa 1e2,1e4) likewise; "
@@ -47,7 +49,7 @@ RULE = ("E1: Blast/SVDMimo/GMDMimo on every shape 1<=Nt<=Nr<=4 (all families) an
         "(scheme, channel form, family, member, shape, block count).  "
         "E3: ONE object per scheme, every history <= depth 4 (thorough 5) over {set_channel_matrix(3 channels "
         "incl. another shape and a 1-D form), set_noise_var(None|0.0|0.5|0.01) where the scheme has it, encode, "
-        "decode}; in every state decode(H_cur @ encode(d)) == d when the current noise variance is 0/None, "
+        "decode, calc_linear_SINRs(0.05|2), calc_SINRs(0.05), _calc_precoder(ch), _calc_receive_filter(ch, None|0.05)}; in every state decode(H_cur @ encode(d)) == d when the current noise variance is 0/None, "
         "encode/decode agree with a freshly built object of the current (channel, noise_var), Blast/MRC decode "
         "equals sqrt(Nt) W_MMSE(H_cur, noise_cur) y from the harness SVD, Nr/Nt/layers follow the current channel; "
         "states are merged only on identical (object digest incl. any cache, model channel, model noise)")
@@ -88,6 +90,22 @@ def channel_items(tier):
             for kappa in (1e2, 1e4):
                 for s in range(S):
                     yield ("neardep%g" % kappa, s, F.nearly_dependent(s, (nr, nt), kappa))
+    # global scale factors (every relation is scale covariant, tolerances are relative; the MMSE noise
+    # variances are scaled by g^2 so that the scaled problem is exactly the same problem) and nearly
+    # tied singular values (GMD decides rotations by comparing singular values with their geometric mean)
+    Ss = 12 if thorough else 4
+    for (nr, nt) in shapes() + [(5, 4), (5, 5), (6, 5), (6, 6)]:
+        for g in SCALES:
+            for s in range(Ss):
+                yield ("generic@%g" % g, s, g * F.generic(s, (nr, nt), True, tag=4))
+            if min(nr, nt) >= 2:
+                for s in range(Ss // 2):
+                    yield ("neardep100@%g" % g, s, g * F.nearly_dependent(s, (nr, nt), 1e2))
+        if nt >= 2 and nr >= nt:
+            for pi, prof in enumerate(near_tied_profiles(nt)):
+                for g in (1.0, 1e-9, 1e6):
+                    for s in range(Ss // 2):
+                        yield ("neartied%d@%g" % (pi, g), s, g * tied_channel(s, (nr, nt), prof))
     # larger arrays, Nr in 5..6 (thorough ..8): generic and nearly dependent members only.  The GMD
     # permutation bookkeeping (and any per-column loop) only shows its full behaviour for Nt >= 5.
     Sb = 60 if thorough else 24
@@ -99,6 +117,27 @@ def channel_items(tier):
                 for kappa in (1e2, 1e4):
                     for s in range(Sb // 2):
                         yield ("neardep%g" % kappa, s, F.nearly_dependent(s, (nr, nt), kappa))
+
+
+SCALES = (1e-12, 1e-9, 1e-6, 1e6, 1e9)
+
+
+def near_tied_profiles(n):
+    """singular values that are nearly but not exactly equal (relative gaps 1e-6 and 1e-9)"""
+    k = np.arange(n)
+    return [1.0 - 1e-6 * k, 1.0 + 1e-9 * (k - (n - 1) / 2.0), np.where(k == 0, 1.0 + 1e-6, 1.0 - 1e-9 * k),
+            np.where(k < (n + 1) // 2, 2.0, 2.0 * (1 - 1e-6)) * (1 + 1e-9 * k)]
+
+
+def tied_channel(s, shape, prof):
+    m, n = shape
+    U = F.unitary(s, m, tag=43)
+    V = F.unitary(s + 50, n, tag=44)
+    return (U[:, :n] * np.sort(np.asarray(prof, dtype=float))[::-1]) @ V.conj().T
+
+
+def fam_scale(fam):
+    return float(fam.split("@")[1]) if "@" in fam else 1.0
 
 
 def data_vec(L):
@@ -119,6 +158,8 @@ def classify_mismatch(got, d):
     if not np.all(np.isfinite(got)):
         return "not_finite"
     tol = 1e-6 * N.scale(d)
+    if N.err(got, d) <= tol:
+        return "small_error_below_1e-6"
     if d.size > 1:
         # a permutation of the right symbols?
         used = set()
@@ -255,7 +296,8 @@ def run_filters(chk, case):
                          observed=N.err(B, math.sqrt(nt) * pinv_ref), expected=0)
     with chk.guard(("mmse_filter", shape_class(nr, nt)), case):
         prev = None
-        for s2 in SIGMA2:
+        g2 = fam_scale(case["fam"]) ** 2
+        for s2 in [v * g2 for v in SIGMA2]:
             chk.count("eval_mmse")
             W = np.asarray(M.MimoBase._calcMMSEFilter(np.array(H), s2))
             if W.shape != (nt, nr):
@@ -368,7 +410,12 @@ def hist_events(scheme):
     ev = [("chan", i) for i in range(3)]
     if scheme in HAS_NOISE:
         ev += [("noise", v) for v in NOISE_ALPH]
-    return ev + [("encode",), ("decode",)]
+    ev += [("encode",), ("decode",)]
+    # every other public method that reads channel / noise state (they must not disturb later decodes)
+    ev += [("sinr_lin", 0.05), ("sinr_lin", 2.0), ("sinr_db", 0.05)]
+    if scheme != "Alamouti":            # Alamouti has no linear precoder / filter (documented RuntimeError)
+        ev += [("precoder",), ("recvfilter", None), ("recvfilter", 0.05)]
+    return ev
 
 
 class HState:
@@ -403,6 +450,14 @@ def hist_build(scheme, hist):
             elif ev[0] == "noise":
                 st.obj.set_noise_var(ev[1])
                 st.noise = 0.0 if ev[1] is None else ev[1]
+            elif ev[0] == "sinr_lin":
+                st.obj.calc_linear_SINRs(ev[1])
+            elif ev[0] == "sinr_db":
+                st.obj.calc_SINRs(ev[1])
+            elif ev[0] == "precoder":
+                st.obj._calc_precoder(st.obj._channel)
+            elif ev[0] == "recvfilter":
+                st.obj._calc_receive_filter(st.obj._channel, ev[1])
             else:
                 H2 = as2d(scheme, chans[st.ch])
                 d = hist_data(scheme, H2)
@@ -422,12 +477,16 @@ def hist_enabled(scheme, hist, st):
     return hist_events(scheme)
 
 
+AFTER = {"noise": "after_set_noise_var", "chan": "after_set_channel_matrix",
+         "sinr_lin": "after_calc_linear_SINRs", "sinr_db": "after_calc_SINRs",
+         "precoder": "after__calc_precoder", "recvfilter": "after__calc_receive_filter"}
+
+
 def last_mutator(hist):
+    """the last event other than encode/decode (names the call after which the object is stale)"""
     for ev in reversed(hist):
-        if ev[0] == "noise":
-            return "after_set_noise_var"
-        if ev[0] == "chan":
-            return "after_set_channel_matrix"
+        if ev[0] in AFTER:
+            return AFTER[ev[0]]
     return "as_constructed"
 
 
@@ -486,6 +545,14 @@ def hist_invariant(chk, scheme, hist, st):
             if not N.close(r, want, k2, C_MMSE):
                 chk.fail((scheme, "history", "decode_not_filter_of_current_channel_and_noise", when), case,
                          observed=r[:6], expected=want[:6], msg="current noise_var=%r" % st.noise)
+        # the SINR reports are a function of the current channel and their explicit argument only
+        # (evaluated last: they may themselves populate caches of a changed implementation)
+        for v in (0.05, 2.0):
+            a = np.asarray(obj.calc_linear_SINRs(v))
+            b = np.asarray(fresh.calc_linear_SINRs(v))
+            if not N.close(a, b, kappa ** 2, C_MMSE):
+                chk.fail((scheme, "history", "calc_linear_SINRs_differs_from_fresh_object", when), case,
+                         observed=a, expected=b, msg="argument noise_var=%r" % v)
         chk.nontriv(("history", scheme, st.ch, st.noise, when))
 
 
